@@ -75,6 +75,9 @@ FIXED = [
      ('out', 'abstract')],
     [('early_in', 'two_rev'), ('in', 'abs_packet'), ('early_out', 'two_rev'),
      ('out', 'abs_packet')],
+    [('early_in', 'Packet'), ('early_in', 'Packet'), ('in', 'Packet'),
+     ('in', 'Packet'), ('early_out', 'concrete'), ('early_out', 'concrete'),
+     ('out', 'Packet'), ('out', 'Packet')],
 ]
 
 
@@ -107,6 +110,11 @@ def listeners(ctx, config, pv=757, sentinel=False):
     with World(ctx, factory) as wld:
         conn = Connection('host', 25565, username='u', allowed_versions=[pv])
         wld.conn = conn
+        # how the listeners are registered is an input: the method, a fresh
+        # @conn.listener(...) decorator each, or ONE decorator object per
+        # (list, types) applied to every listener that shares it
+        api = concretize(ctx.int('api', 0, 2))
+        decorators = {}
         for k, (lst, filt) in enumerate(config):
             ign = ctx.bool('ignore%d' % k)
             direction = 'in' if lst in ('early_in', 'in') else 'out'
@@ -119,9 +127,16 @@ def listeners(ctx, config, pv=757, sentinel=False):
                 log.append((spec['k'], id(packet), sent_now))
                 if spec['ign']:
                     raise IgnorePacket
-            conn.register_packet_listener(
-                cbk, *types, early=lst.startswith('early'),
-                outgoing=lst.endswith('out'))
+            kw = dict(early=lst.startswith('early'),
+                      outgoing=lst.endswith('out'))
+            if api == 0:
+                conn.register_packet_listener(cbk, *types, **kw)
+            elif api == 1:
+                conn.listener(*types, **kw)(cbk)
+            else:
+                if (lst, filt) not in decorators:
+                    decorators[lst, filt] = conn.listener(*types, **kw)
+                decorators[lst, filt](cbk)
         # observers registered LAST in the ordinary lists: record every
         # packet that reaches the end of its pipeline
         conn.connect()
